@@ -27,6 +27,7 @@ def check(tier, seed):
                 'history with >= 2 bytes after the last reset')
     with C.WorkDir('C15') as wd:
         C.audit_sources()
+        C.tie_b_kernels(res, wd, ('ck',))
         pr = C.check_props('C15', wd)
         res.assumption_lines = pr['assumptions']
         for t in pr['theorems']:
